@@ -339,7 +339,7 @@ func (c *Ctx) keysOfSummary(fn *ssa.Function) (string, bool) {
 		if len(r.Results) != 1 {
 			return "", false
 		}
-		p := c.M.ValPath(r.Results[0])
+		p := c.M.ValPath(core.RetVal(r, 0))
 		if !strings.HasPrefix(p, recv+".") {
 			return "", false
 		}
@@ -517,7 +517,7 @@ func (c *Ctx) outputLookupDominatesAccept() bool {
 	}
 	ei := core.ErrorResultIndex(f.Signature)
 	for _, r := range core.ReturnsOf(f) {
-		if c.M.ProvablyNonNilError(r.Results[ei], r.Block()) {
+		if c.M.ProvablyNonNilError(core.RetVal(r, ei), r.Block()) {
 			continue
 		}
 		found := false
@@ -526,7 +526,7 @@ func (c *Ctx) outputLookupDominatesAccept() bool {
 				continue
 			}
 			if t, ok := core.CommaOk(cond.V); ok {
-				if l, ok := t.(*ssa.Lookup); ok && strings.HasSuffix(c.M.ValPath(l.X), ".OutputsValue") && l.Index == r.Results[0] {
+				if l, ok := t.(*ssa.Lookup); ok && strings.HasSuffix(c.M.ValPath(l.X), ".OutputsValue") && l.Index == core.RetVal(r, 0) {
 					found = true
 				}
 			}
